@@ -187,3 +187,188 @@ Proof.
     + apply slotv_NoDup; [exact Nc | now apply nodupb_sound|]. intros i Hi. apply B. rewrite E. apply in_app_iff. now left.
     + unfold slotv. exact (in_map (fun i => nth i c 0) a x Hx).
 Qed.
+
+(* ------------------------------------------------------------------ the induced bijection on entity numbers *)
+Lemma sort_entity_perm l l' : Permutation l l' -> sort_entity l = sort_entity l'.
+Proof. intros H. unfold sort_entity. now rewrite (isort_of_perm l l' H). Qed.
+
+(* relabelling commutes with taking the key: key(p(key l)) = key(p(l)) *)
+Lemma sort_entity_map_idem (p : nat -> nat) l : (forall a b, p a = p b -> a = b) -> shape l ->
+  sort_entity (map p (sort_entity l)) = sort_entity (map p l).
+Proof.
+  intros Hinj [N | [l0 [x [-> [N I]]]]].
+  - rewrite (sort_entity_nodup l N). apply sort_entity_perm, Permutation_map, Permutation_sym, isort_perm.
+  - rewrite (sort_entity_padded l0 x N I). rewrite map_app. simpl map.
+    assert (N' : NoDup (map p l0)) by (now apply (Injective_map_NoDup (f := p))).
+    rewrite (sort_entity_padded (map p l0) (p x) N' (in_map p l0 x I)).
+    set (h := hd 0 (isort l0)).
+    assert (Hh : In h l0).
+    { unfold h. destruct (isort l0) as [|z r] eqn:E.
+      - destruct l0; [destruct I|]. pose proof (isort_length (n :: l0)) as L. rewrite E in L. discriminate.
+      - simpl. apply isort_in. rewrite E. now left. }
+    assert (N2 : NoDup (map p (isort l0))).
+    { apply (Injective_map_NoDup (f := p)); [exact Hinj|]. eapply Permutation_NoDup; [apply isort_perm | exact N]. }
+    rewrite (sort_entity_perm (p h :: map p (isort l0)) (map p (isort l0) ++ [p h])) by apply Permutation_cons_append.
+    rewrite (sort_entity_padded (map p (isort l0)) (p h) N2) by (apply in_map, isort_in, Hh).
+    assert (E : isort (map p (isort l0)) = isort (map p l0)) by (apply isort_of_perm, Permutation_map, Permutation_sym, isort_perm).
+    now rewrite E.
+Qed.
+
+Lemma map_inj_in_NoDup {A B} (f : A -> B) l :
+  (forall x y, In x l -> In y l -> f x = f y -> x = y) -> NoDup l -> NoDup (map f l).
+Proof.
+  induction l as [|a l IH]; intros Hinj Hnd; simpl; constructor; inversion Hnd as [|? ? Hna Hnd']; subst.
+  - intros Hin. apply in_map_iff in Hin. destruct Hin as [y [Hy Hyin]]. apply Hna.
+    assert (y = a) by (apply Hinj; [now right | now left | exact Hy]). now subst.
+  - apply IH; [|exact Hnd']. intros x y Hx Hy. apply Hinj; now right.
+Qed.
+
+Section Global.
+  Variable p : nat -> nat.
+  Hypothesis p_inj : forall a b, p a = p b -> a = b.
+  Variables cells idx : list (list nat).
+  Variable nn : nat.
+  Hypothesis Hlen : Forall (fun c => length c = nn) cells.
+  Hypothesis Hidx : Forall (fun ix => forall i, In i ix -> i < nn) idx.
+  Hypothesis Hshape : forall ix c, In ix idx -> In c cells -> shape (slotv ix c).
+  Notation cells' := (map (map p) cells).
+  Notation nt := (length cells).
+  Notation ns := (length idx).
+  Notation E := (entities true cells idx).
+  Notation E' := (entities true cells' idx).
+
+  (* sigma: the number, in the relabelled mesh, of the entity with old number f = rank of its relabelled key *)
+  Definition sigma (f : nat) : nat := index_of lex_cmp (sort_entity (map p (nth f E []))) E'.
+
+  Theorem sigma_t2f s e : s < ns -> e < nt -> t2f_at cells' idx s e = sigma (t2f_at cells idx s e).
+  Proof.
+    intros Hs He. unfold sigma. rewrite (t2f_slotwise cells idx s e Hs He). unfold key.
+    rewrite sort_entity_map_idem; [|exact p_inj | apply Hshape; now apply nth_In].
+    rewrite <- (key_relabel p cells idx nn Hlen Hidx s e Hs He).
+    rewrite <- (t2f_slotwise cells' idx s e) by (rewrite ?map_length; assumption).
+    symmetry. apply (index_of_NoDup _ lex_cmp lex_cmp_eq).
+    - apply (entities_unique_sorted cells' idx).
+    - apply t2f_bound; rewrite ?map_length; assumption.
+  Qed.
+
+  (* sigma is a bijection [0, n) -> [0, n') *)
+  Theorem sigma_bijection :
+    (forall f, f < length E -> sigma f < length E') /\
+    (forall f g, f < length E -> g < length E -> sigma f = sigma g -> f = g) /\
+    (forall f', f' < length E' -> exists f, f < length E /\ sigma f = f').
+  Proof.
+    split; [|split].
+    - intros f Hf. destruct (t2f_onto cells idx f Hf) as [s [e [Hs [He <-]]]]. rewrite <- sigma_t2f by assumption.
+      apply t2f_bound; rewrite ?map_length; assumption.
+    - intros f g Hf Hg H. destruct (t2f_onto cells idx f Hf) as [s [e [Hs [He <-]]]].
+      destruct (t2f_onto cells idx g Hg) as [s' [e' [Hs' [He' <-]]]]. rewrite <- !sigma_t2f in H by assumption.
+      now apply (relabel_incidence p p_inj cells idx nn Hlen Hidx Hshape s e s' e').
+    - intros f' Hf'. destruct (t2f_onto cells' idx f' Hf') as [s [e [Hs [He Heq]]]]. rewrite map_length in He.
+      exists (t2f_at cells idx s e). split; [now apply t2f_bound | now rewrite <- sigma_t2f].
+  Qed.
+
+  Theorem sigma_length : length E' = length E.
+  Proof.
+    destruct sigma_bijection as [B [I O]].
+    assert (H1 : length E' <= length E).
+    { (* onto: the image of [0,n) under sigma covers [0,n') *)
+      assert (Hinc : incl (seq 0 (length E')) (map sigma (seq 0 (length E)))).
+      { intros f' Hf'. apply in_seq in Hf'. destruct (O f' ltac:(lia)) as [f [Hf <-]]. apply in_map, in_seq. lia. }
+      pose proof (NoDup_incl_length (seq_NoDup _ _) Hinc) as L. now rewrite seq_length, map_length, seq_length in L. }
+    assert (H2 : length E <= length E').
+    { assert (Hnd : NoDup (map sigma (seq 0 (length E)))).
+      { apply map_inj_in_NoDup; [|apply seq_NoDup]. intros x y Hx Hy. apply in_seq in Hx, Hy. apply I; lia. }
+      assert (Hinc : incl (map sigma (seq 0 (length E))) (seq 0 (length E'))).
+      { intros y Hy. apply in_map_iff in Hy. destruct Hy as [x [<- Hx]]. apply in_seq in Hx. apply in_seq. split; [lia|]. apply B. lia. }
+      pose proof (NoDup_incl_length Hnd Hinc) as L. now rewrite map_length, !seq_length in L. }
+    lia.
+  Qed.
+
+  (* f2t: the cells containing sigma f are the cells containing f; single-neighbour status is preserved *)
+  Theorem sigma_f2t f : f < length E ->
+    (forall e1, e1 < nt -> (contains cells' idx (sigma f) e1 <-> contains cells idx f e1)) /\
+    (slots_injective cells idx ->
+     (row1 (f2t_of cells' idx) (sigma f) = (-1)%Z <-> row1 (f2t_of cells idx) f = (-1)%Z)).
+  Proof.
+    intros Hf. destruct (t2f_onto cells idx f Hf) as [s [e [Hs [He <-]]]]. rewrite <- sigma_t2f by assumption. split.
+    - intros e1 He1. now apply (relabel_contains p p_inj cells idx nn Hlen Hidx Hshape).
+    - intros Hinj. now apply (relabel_boundary p p_inj cells idx nn Hlen Hidx Hshape).
+  Qed.
+
+  (* the vertex set of entity sigma f is the image of the vertex set of f *)
+  Theorem sigma_vertices f v : f < length E ->
+    (In v (nth (sigma f) E' []) <-> exists u, In u (nth f E []) /\ v = p u).
+  Proof.
+    intros Hf. destruct (t2f_onto cells idx f Hf) as [s [e [Hs [He <-]]]]. rewrite <- sigma_t2f by assumption.
+    now apply (relabel_vertex_sets p cells idx nn Hlen Hidx).
+  Qed.
+End Global.
+
+(* ------------------------------------------------------------------ f2e numbers mesh.edges: quadrilateral (unsorted, cyclic) facets *)
+Definition quad_pairs (q : list nat) : list (list nat) :=
+  map (fun b => sort_entity (slotv b q)) [[0; 1]; [1; 2]; [2; 3]; [0; 3]].
+
+(* q' lists the four vertices of q in the same cyclic order up to rotation / reversal *)
+Definition dihedral (q q' : list nat) : Prop :=
+  match q with
+  | [a; b; c; d] => In q' [[a; b; c; d]; [b; c; d; a]; [c; d; a; b]; [d; a; b; c];
+                           [d; c; b; a]; [c; b; a; d]; [b; a; d; c]; [a; d; c; b]]
+  | _ => False
+  end.
+
+Lemma se_swap x y : sort_entity [x; y] = sort_entity [y; x].
+Proof. apply sort_entity_perm, perm_swap. Qed.
+
+Lemma quad_pairs_dihedral q q' x : dihedral q q' -> (In x (quad_pairs q') <-> In x (quad_pairs q)).
+Proof.
+  destruct q as [|a [|b [|c [|d [|z q]]]]]; simpl; try tauto.
+  Opaque sort_entity.
+  intros [<-|[<-|[<-|[<-|[<-|[<-|[<-|[<-|[]]]]]]]]]; unfold quad_pairs, slotv; simpl;
+    rewrite ?(se_swap b a), ?(se_swap c b), ?(se_swap d c), ?(se_swap d a); tauto.
+  Transparent sort_entity.
+Qed.
+
+Theorem f2e_numbers_mesh_edges_quad cells facet_idx edge_idx bnd :
+  bnd = [[0; 1]; [1; 2]; [2; 3]; [0; 3]] ->
+  compose_ok facet_idx bnd edge_idx = true ->
+  (* conformity: every cell lists the vertices of each of its facets in the cyclic order of the stored facet column, up to
+     rotation / reversal *)
+  (forall s e, s < length facet_idx -> e < length cells ->
+     dihedral (nth (t2f_at cells facet_idx s e) (entities false cells facet_idx) []) (slotv (nth s facet_idx []) (nth e cells []))) ->
+  entities true (entities false cells facet_idx) bnd = entities true cells edge_idx.
+Proof.
+  intros Hb Hok Hconf. apply entities_ext. intros x.
+  unfold compose_ok in Hok. apply andb_true_iff in Hok. destruct Hok as [Ok1 Ok2]. rewrite forallb_forall in Ok1, Ok2.
+  assert (Bnd : forall fs b, In fs facet_idx -> In b bnd -> (forall i, In i b -> i < length fs) /\
+                 exists es, In es edge_idx /\ same2 (compose fs b) es = true).
+  { intros fs b Hfs Hbb. specialize (Ok1 fs Hfs). rewrite forallb_forall in Ok1. specialize (Ok1 b Hbb).
+    apply andb_true_iff in Ok1. destruct Ok1 as [B Ex]. rewrite forallb_forall in B. split.
+    - intros i Hi. apply Nat.ltb_lt. now apply B.
+    - apply existsb_exists in Ex. destruct Ex as [es [H1 H2]]. now exists es. }
+  assert (Htp : forall q, In x (map (fun b => sort_entity (slotv b q)) bnd) <-> In x (quad_pairs q)) by (intros q; rewrite Hb; reflexivity).
+  rewrite !in_keys_gen. split.
+  - intros [b [F [Hbin [HF ->]]]]. destruct (In_nth _ _ [] HF) as [j [Hj HFj]].
+    assert (Hj' : j < length (entities true cells facet_idx)).
+    { destruct (entities true cells facet_idx) as [|k0 r] eqn:E0.
+      - exfalso. unfold entities in Hj, E0. unfold build_entities in Hj, E0. simpl in Hj, E0.
+        rewrite map_length, first_index_length in Hj. unfold keys in *. rewrite E0 in Hj. simpl in Hj. lia.
+      - rewrite <- E0. destruct (entities_unsorted_spec cells facet_idx 0) as [L _]; [rewrite E0; simpl; lia|]. now rewrite <- L. }
+    destruct (entities_unsorted_spec cells facet_idx j Hj') as [_ [_ [s [e [Hs [He [_ [Hcol _]]]]]]]].
+    rewrite <- HFj, Hcol.
+    destruct (Bnd (nth s facet_idx []) b (nth_In _ _ Hs) Hbin) as [Bb [es [Hes Hsame]]].
+    exists es, (nth e cells []). split; [exact Hes|]. split; [now apply nth_In|].
+    rewrite slotv_compose by exact Bb. apply sort_entity_perm. unfold slotv. apply Permutation_map. now apply same2_perm.
+  - intros [es [c [Hes [Hc ->]]]]. destruct (In_nth _ _ [] Hc) as [e [He Hce]].
+    specialize (Ok2 es Hes). apply existsb_exists in Ok2. destruct Ok2 as [fs [Hfs Ex]].
+    apply existsb_exists in Ex. destruct Ex as [b' [Hb' Hsame]]. destruct (In_nth _ _ [] Hfs) as [s [Hs Hfss]].
+    destruct (Bnd fs b' Hfs Hb') as [Bb _].
+    assert (E1 : sort_entity (slotv es c) = sort_entity (slotv b' (slotv fs c))).
+    { rewrite slotv_compose by exact Bb. apply sort_entity_perm. unfold slotv. apply Permutation_map, Permutation_sym. now apply same2_perm. }
+    assert (Hin : In (sort_entity (slotv es c)) (quad_pairs (slotv fs c))).
+    { apply Htp. apply in_map_iff. exists b'. split; [now symmetry | exact Hb']. }
+    specialize (Hconf s e Hs He). rewrite Hfss, Hce in Hconf.
+    apply (quad_pairs_dihedral _ _ _ Hconf) in Hin. apply Htp in Hin. apply in_map_iff in Hin. destruct Hin as [b [Heq Hbin]].
+    exists b, (nth (t2f_at cells facet_idx s e) (entities false cells facet_idx) []). split; [exact Hbin|]. split; [|now symmetry].
+    apply nth_In. destruct (entities_unsorted_spec cells facet_idx (t2f_at cells facet_idx s e)) as [L _]; [now apply t2f_bound|].
+    rewrite L. now apply t2f_bound.
+Qed.
